@@ -290,12 +290,17 @@ def optimize_case(d, at=0, max_passes=70):
             o1 = e.optimize()
             obs["opt1"] = o1._name
             stage = "optimize-again"
-            o2 = o1.optimize()
+            from .record import recording
+
+            with recording() as rec:
+                o2 = o1.optimize()
+                second = sorted({f"{rule}:{type(before).__name__}" for _, rule, before, _ in rec.records})
             obs["opt2"] = o2._name
             if o2._name != o1._name:
                 # diagnostics for findings: is the second result a fixpoint, and is it smaller?
                 obs["opt3"] = o2.optimize()._name
                 obs["nodes1"], obs["nodes2"] = len(list(o1.walk())), len(list(o2.walk()))
+                obs["second_pass_rules"] = second
     except Exception as ex:
         obs["err"] = f"{type(ex).__name__}: {str(ex)[:200]}"
         obs["stage"] = stage
